@@ -243,12 +243,13 @@ class _Resp:
 class SyncClientWorld(ClientWorld):
     impl = 'sync'
 
-    def __init__(self, cfg=None, seed=0, preempt=False):
+    def __init__(self, cfg=None, seed=0, preempt=False, hub=None):
         super().__init__(cfg)
         import engineio
         import engineio.client as ec
         import engineio.base_client as bc
-        self.hub = hubmod.Hub(seed=seed, preempt=preempt)
+        self.hub = hub or hubmod.Hub(seed=seed, preempt=preempt)
+        self._own_hub = hub is None
         hubmod.set_hub(self.hub)
         self._ec, self._bc = ec, bc
         self._saved = (ec.requests, ec.websocket, ec.threading, ec.queue, ec.time, bc.time)
@@ -280,7 +281,8 @@ class SyncClientWorld(ClientWorld):
         self.client.disconnect()
 
     def close(self):
-        self.hub.kill_all()
+        if self._own_hub:
+            self.hub.kill_all()
         ec, bc = self._ec, self._bc
         ec.requests, ec.websocket, ec.threading, ec.queue, ec.time, bc.time = self._saved
         bc.connected_clients[:] = []
@@ -456,11 +458,12 @@ class _SyncWs:
 class AsyncClientWorld(ClientWorld):
     impl = 'async'
 
-    def __init__(self, cfg=None, seed=0):
+    def __init__(self, cfg=None, seed=0, loop=None):
         super().__init__(cfg)
         import engineio
         import engineio.base_client as bc
-        self.loop = vloop.VLoop()
+        self.loop = loop or vloop.VLoop()
+        self._own_loop = loop is None
         self._bc = bc
         self._saved_time = bc.time
         bc.time = vloop.TimeShim(self.loop)
@@ -491,7 +494,8 @@ class AsyncClientWorld(ClientWorld):
         self.client.on('disconnect', od)
 
     def close(self):
-        self.loop.shutdown()
+        if self._own_loop:
+            self.loop.shutdown()
         self._bc.time = self._saved_time
         self._bc.connected_clients[:] = []
 
